@@ -788,6 +788,9 @@ def generate():
         no_drop = 'implDropforOsIpcOneShotServer' not in flat
         if not drop_unreg and not no_drop:
             fail("in-process one-shot server: its Drop impl is not recognised")
+        # the in-process transport knows which kind of endpoint an attachment is; asked for the other kind it panics (D18, open)
+        kp = ('OsIpcChannel::Sender(_)=>panic!("Opaquechannelisnotareceiver!"),' in flat and 'OsIpcChannel::Receiver(_)=>panic!("Opaquechannelisnotasender!"),' in flat)
+        out.append(f"def inprocKindMismatchPanics : Bool := {'true' if kp else 'false'}  -- to_sender on a receiver / to_receiver on a sender: `panic!`")
         out.append(f"def inprocNewRegisters : Bool := {'true' if reg_new else 'false'}")
         out.append(f"def inprocConnectChecked : Bool := {'true' if checked else 'false'}  -- false: `.get(&name).unwrap()` with the registry locked")
         out.append(f"def inprocAcceptUnregisters : Bool := {'true' if acc_unreg else 'false'}")
